@@ -109,7 +109,6 @@ package flows
 //@   ensures[global-index] absInt(bigval(claim.GlobalIndex)) < 4722366482869645213696 ==> result0.GlobalIndex.MainnetFlag == (absInt(bigval(claim.GlobalIndex)) >= 18446744073709551616) && result0.GlobalIndex.RollupIndex == (absInt(bigval(claim.GlobalIndex)) / 4294967296) % 4294967296 && result0.GlobalIndex.LeafIndex == absInt(bigval(claim.GlobalIndex)) % 4294967296
 
 // ---- the new local exit root of a certificate (C03): the synced exit-tree root at the deposit count of its last bridge
-//@ ghost var exitRootAt map[int]Hash
 //@ interface github.com/agglayer/aggkit/aggsender/types.BridgeQuerier.GetExitRootByIndex (self, ctx, index)
 //@   modifies nothing
 //@   ensures result1 == nil ==> result0 == exitRootAt[index]
@@ -215,12 +214,7 @@ package flows
 // Boundaries (assumed, A8): the L2 bridge syncer (l2Synced is its last processed block; eventsOK(from, to, nb, nc)
 // stands for "the returned bridges and claims are exactly the events of blocks from..to") and the local storage
 // (storedLastCert is the header of the last certificate sent).
-//@ ghost var l2Synced int
 //@ ghost var storedLastCert *types.CertificateHeader
-//@ spec fn bridgesOf(from int, to int) []bridgesync.Bridge
-//@ spec fn claimsOf(from int, to int) []bridgesync.Claim
-//@ spec fn nBridgesOf(from int, to int) int
-//@ spec fn nClaimsOf(from int, to int) int
 //@ interface github.com/agglayer/aggkit/aggsender/types.BridgeQuerier.GetLastProcessedBlock (self, ctx)
 //@   modifies nothing
 //@   ensures result1 == nil ==> result0 == l2Synced
